@@ -136,6 +136,7 @@ type Task struct {
 	prio      int
 	failEpoch int64 // scheduler epoch at which this task was last released to probe a lock
 	condOn    *sync.Cond
+	wlockOn   any // the RWMutex this task waits to write-lock (writer preference)
 	condWoken bool
 	condSeq   int64
 
@@ -435,7 +436,9 @@ func BeforeLock(mu any, kind int) {
 		free := false
 		if kind == LockR {
 			if l, ok := mu.(tryRLocker); ok {
-				if l.TryRLock() {
+				// writer preference, as in sync.RWMutex: once a writer waits in Lock, later RLock calls wait behind
+				// it (so a task that read-locks twice with a writer arriving in between deadlocks here as it does there)
+				if !s.writerWaits(mu, t) && l.TryRLock() {
 					l.RUnlock()
 					free = true
 				}
@@ -456,11 +459,35 @@ func BeforeLock(mu any, kind int) {
 			if waited {
 				s.progress()
 			}
+			s.setWriteWait(t, nil)
 			return
 		}
 		waited = true
+		if kind != LockR {
+			if _, rw := mu.(tryRLocker); rw {
+				s.setWriteWait(t, mu)
+			}
+		}
 		s.park(t, stLockWait)
 	}
+}
+
+//go:norace
+//go:noinline
+func (s *Sim) setWriteWait(t *Task, mu any) { t.wlockOn = mu }
+
+// writerWaits: is a task other than t parked in Lock() of the RWMutex mu?
+//
+//go:norace
+//go:noinline
+func (s *Sim) writerWaits(mu any, t *Task) bool {
+	n := int(s.ntasks)
+	for i := 0; i < n; i++ {
+		if o := s.tasks[i]; o != nil && o != t && o.wlockOn == mu {
+			return true
+		}
+	}
+	return false
 }
 
 //go:norace
